@@ -377,17 +377,22 @@ PROPS['C02'] = dict(
     title='C02 - re-encoding parsed data is canonical and stable',
     requires=['ConInd', 'RTFacts', 'DepRT'],
     theorems=[
-        ('Stable', 'rebuild_fragment', 'THE theorem (build after parse is stable), by induction over the construct syntax: for every construct of the closed sequential fragment whose Struct members are named (sfrag, decidable; any depth), when a value builds to some bytes, the value those bytes parse to - at any stream position, with any trailing data, in any context - builds to exactly the same bytes again.'),
+        ('Stable', 'rebuild_fragment', 'THE theorem (build after parse is stable), by induction over the construct syntax: for every construct of the closed sequential fragment whose Struct members are named or are anonymous constants / padding (sfrag, decidable; any depth), when a value builds to some bytes, the value those bytes parse to - at any stream position, with any trailing data, in any context - builds to exactly the same bytes again.'),
         ('Stable', 'C02_reproduced_exactly', 'On the public entry points: bytes the construct itself produced are reproduced exactly by build(parse(.)), in any keyword contexts.'),
         ('Stable', 'C02_reencoding_is_idempotent', 'Idempotence: for ANY accepted input, canonical or not, once build has accepted what parse returned, one more parse/build changes nothing - the first re-encoding is the canonical one.'),
         ('StableDep', 'dep_rebuild', 'The same for DEPENDENT layouts (DepRT.dfrag with named members): members sized by earlier integer fields (Bytes/Array/Padded/FixedSized of this.n) and members chosen by them (Switch / IfThenElse on this.k). The size and the choice are the same in the first build, in the parse and in the second build, because an integer field parses to the integer that was built.'),
         ('StableDep', 'C02_reproduced_exactly_dependent', 'On the public entry points for the dependent fragment.'),
-        ('Stable', 'RB_struct', 'Struct: members rebuild and are named, names distinct => the Struct rebuilds (the parsed dictionary holds, under each name, what that member parsed to).'),
+        ('Stable', 'RB_struct', 'Struct: members rebuild and are named (or are anonymous constants / padding), names distinct => the Struct rebuilds (the parsed dictionary holds, under each name, what that member parsed to).'),
         ('Stable', 'RB_prefixed', 'Prefixed: the length field is rebuilt from the rebuilt payload, which has the same length.'),
         ('Stable', 'RB_padded', 'Padded: the padding is rebuilt from the pattern, whatever the input had there.'),
-        ('Stable', 'ex_stable_in_fragment', 'Non-vacuity: a header, a VarInt-prefixed payload, an array of 3-byte integers, a padded constant, a VarInt.'),
+        ('Stable', 'ex_stable_in_fragment', 'Non-vacuity: an anonymous magic constant, a header, a VarInt-prefixed payload, an array of 3-byte integers, a padded constant, anonymous padding, a VarInt.'),
         ('Stable', 'ex_stable_normalises', 'On a NON-canonical input of that construct (redundant VarInt continuation bytes, non-zero padding) the first re-encoding differs from the input and the second equals the first (kernel-evaluated).'),
         ('StableDep', 'ex_tlv_stable', 'The same on a tag-length-value record (payload chosen by the tag, sized by the length).'),
+        ('Stable', 'anon_det', 'Anonymous members that build from nothing (Const, Padding, Pass) build the same bytes in every context: a Struct may contain them among its named members.'),
+        ('StableDep', 'ex_magic_tlv_in_fragment', 'A record with an anonymous magic constant in front and anonymous padding behind is in the fragment.'),
+        ('StableDep', 'ex_magic_tlv_stable', 'On an input with junk in the padding the first re-encoding differs and the second equals the first (kernel-evaluated).'),
+        ('FloatFacts', 'half_roundtrip', 'Float16, EVERY non-NaN pattern of the 65536: the double it parses to builds back to exactly that pattern (finite sweep evaluated by the kernel, lifted to the quantified statement).'),
+        ('FloatFacts', 'half_nan_canonical', 'Float16 NaNs: every NaN pattern is re-encoded as the quiet NaN of its sign.'),
         ('RTFacts', 'C01_roundtrip_closed', 'Bytes the construct itself produced are reproduced: for the closed sequential fragment what build emits parses back to (a value contained in) what was built, consuming exactly those bytes.'),
         ('PrimFacts', 'bytesint_parse_then_build', 'Integers of every width have exactly one accepted encoding: parse then build reproduces the input bytes.'),
         ('PrimFacts', 'varint_normalises', 'VarInt: every well-formed encoding (minimal or not) is accepted, re-encoded as the canonical one, which parses to the same value.'),
@@ -568,7 +573,7 @@ Proof. split; vm_compute; reflexivity. Qed.
 
 PROPS['C19'] = dict(
     title='C19 - KSY export describes the same byte layout the construct parses',
-    requires=['Ksy', 'RTFacts'],
+    requires=['Ksy', 'RTFacts', 'DepRT', 'KsyGen'],
     prelude='Local Open Scope nat_scope.',
     theorems=[
         ('KsyFacts', 'ksy_emit_flat', 'For EVERY Struct of named flat members (any Int*/Float*, Bytes of constant size, Flag, VarInt, GreedyBytes, bytes Const, counted Array of Int*/Float*; any number, any order): the schema the exporter ladder produces is exactly one field per member, in declaration order, with the expected type / size / contents / repeat keys and no helper types.'),
@@ -583,6 +588,12 @@ PROPS['C19'] = dict(
         ('KsyNest', 'read_nested', 'Reading: whatever a described member parses at any position, the schema field reads the same bytes to the related value, with fuel 2 + 3 * depth.'),
         ('KsyNest', 'struct_layout', 'The dictionary a Struct returns is its layout records, in order.'),
         ('KsyNest', 'ex_nested_members', 'Non-vacuity: records inside records inside a header.'),
+        ('KsyDep', 'ksy_describes_dependent_struct', 'DEPENDENT layouts: Structs (nested to depth 20) whose members are flat fields, integer fields and fields SIZED by an earlier integer field of the same Struct - Bytes(this.n), Array(this.n, x) with x an integer or float field. The exporter writes the size expression into the schema; reading it evaluates the expression in the scope the earlier fields were read into, which holds the same integers as the scope the construct parsed them into: same identifiers, extents and values at every level, for every input the construct parses.'),
+        ('KsyDep', 'read_dep', 'Reading a member of the dependent fragment under two scopes that know the same integers.'),
+        ('KsyDep', 'leaf_read', 'A field sized by a known integer reads like the field with that size written out.'),
+        ('KsyDep', 'emit_dependent', 'The emission theorem (proved in KsyGen generically in the kind of leaf member) for constant-size fields and fields sized by an expression: fresh helper type names, never shadowed, and the emitted field describes the member.'),
+        ('KsyDep', 'ex_kdep_members', 'Non-vacuity: a header with a length and a count, a payload and samples sized by them, a nested record with its own length - in the dependent fragment, outside the constant one.'),
+        ('KsyDep', 'ex_kdep_runs', 'Its schema reads an input to the same six top-level records (kernel-evaluated).'),
         ('KsyNest', 'ex_nested_runs', 'Its schema has three helper types and reads an input to the same four top-level records (kernel-evaluated).'),
     ],
     examples='''
